@@ -49,6 +49,8 @@ pub struct Answer {
     pub want: u64,
     /// readdir: what to do when add_entry reports an error: stop and propagate (true) or ignore
     pub dir_propagate_err: bool,
+    /// readdir: fail with this errno after that many entries were accepted (a fault in the middle of the walk)
+    pub dir_fail_after: Option<(usize, i32)>,
     /// how much of a WRITE payload to drain
     pub drain: bool,
     /// READ: serve the data through ZeroCopyWriter::write_from out of this memfd (fd number)
@@ -83,6 +85,7 @@ impl Default for Answer {
             dirents: Vec::new(),
             want: 0,
             dir_propagate_err: true,
+            dir_fail_after: None,
             drain: true,
             read_from_fd: None,
         }
@@ -488,6 +491,11 @@ impl FileSystem for ScriptFs {
             return Err(e);
         }
         for (i, d) in a.dirents.iter().enumerate() {
+            if let Some((n, e)) = a.dir_fail_after {
+                if i == n {
+                    return Err(io::Error::from_raw_os_error(e));
+                }
+            }
             let r = add_entry(DirEntry { ino: d.ino, offset: d.off, type_: d.typ, name: &d.name });
             let rec = match &r {
                 Ok(n) => Ok(*n),
@@ -523,6 +531,11 @@ impl FileSystem for ScriptFs {
             return Err(e);
         }
         for (i, d) in a.dirents.iter().enumerate() {
+            if let Some((n, e)) = a.dir_fail_after {
+                if i == n {
+                    return Err(io::Error::from_raw_os_error(e));
+                }
+            }
             let r = add_entry(DirEntry { ino: d.ino, offset: d.off, type_: d.typ, name: &d.name }, d.entry);
             let rec = match &r {
                 Ok(n) => Ok(*n),
